@@ -36,8 +36,9 @@ theorem setFlags_coherent (dim3 : Bool) (s s' : Mesh V N) (f : Flags) (r : Optio
 /-- a freshly built mesh is coherent: `TriMesh::with_flags` exposes exactly `derive` of its final buffers -/
 theorem withFlags_coherent (dim3 : Bool) (vs : List V) (idx : List Tri) (f : Flags) (s : Mesh V N)
     (h : withFlags dim3 vs idx f = .ok s) : Coherent dim3 s := by
-  obtain ⟨r, hs, _⟩ := buildCore_eq_some (withFlags_eq_ok h).2
-  exact setFlags_coherent dim3 _ _ f r (blank_coherent dim3 vs idx) hs
+  obtain ⟨s1, r, hs, he⟩ := buildCore_eq_some (withFlags_eq_ok h).2
+  obtain ⟨hd, hf, _⟩ := ensureQbvh_spec he
+  exact coherent_of_same (setFlags_coherent dim3 _ _ f r (blank_coherent dim3 vs idx) hs) hd hf
 
 /-- `reverse` preserves coherence (3-D: for any geometry satisfying the laws of exact arithmetic) -/
 theorem reverse_coherent (dim3 : Bool) (hl : dim3 = true → LawfulGeo V N) (s s' : Mesh V N)
@@ -97,17 +98,15 @@ theorem fresh_idem_of_stable (dim3 : Bool) (vs : List V) (idx : List Tri) (f : F
     (hv : s2.vertices = s.vertices) (hi : s2.indices = s.indices) : s2 = s :=
   coherent_unique (withFlags_coherent dim3 _ _ f s2 h2) (withFlags_coherent dim3 _ _ f s h) hv hi
     ((withFlags_flags h2).trans (withFlags_flags h).symm)
+    (by rw [(withFlags_qbvh h2).1, (withFlags_qbvh h).1, hv, hi])
 
 /-- without `MERGE_DUPLICATE_VERTICES | DELETE_DEGENERATE_TRIANGLES | DELETE_DUPLICATE_TRIANGLES` the buffers of a
 fresh mesh are always stable (`delete_bad_topology_triangles` is idempotent): the core of `with_flags`
 (everything but the `indices.is_empty()` test) applied to the mesh's own buffers gives the mesh back. -/
 theorem fresh_idem_noMerge (dim3 : Bool) (vs : List V) (idx : List Tri) (f : Flags) (s : Mesh V N)
     (hm : f.mergeFamily = false) (h : withFlags dim3 vs idx f = .ok s) :
-    buildCore dim3 s.vertices s.indices f = some s := by
-  obtain ⟨r, hs, hq⟩ := buildCore_eq_some (withFlags_eq_ok h).2
-  unfold buildCore
-  rw [setFlags_blank_noMerge_idem hm hs]
-  simp [hq]
+    buildCore dim3 s.vertices s.indices f = some s :=
+  buildCore_noMerge_idem hm (withFlags_eq_ok h).2
 
 /-! ## the code as written on the pinned tree: where coherence fails
 
